@@ -1,2 +1,703 @@
-// Package c02: implementation-side ops, generators and oracles for property C02.
+// Package c02: data protected for one client is never revealed under another identity (C02).
+//
+// Implementation-side ops run the REAL Acra code: registry handler, AcraTranslator service (Decrypt,
+// DecryptSym, searchable variants), envelope detector with and without the compatibility wrapper, the blind
+// index check, the pseudoanonymizer, the gRPC service behind the real TLSDecryptServiceWrapper (with
+// AuthInfo produced by a real TLS handshake through Acra's TLSConnectionWrapper using the certificates of
+// /repo/tests/ssl), and both key store formats (v1 directory, v2 in-memory and directory back ends).
 package c02
+
+import (
+	"bytes"
+	"encoding/hex"
+	"fmt"
+	"strings"
+
+	"verifharness/internal/core"
+	env "verifharness/internal/envops"
+)
+
+const markerLen = 12
+
+// outBytes collects every byte string an op result carries.
+func outBytes(out string) [][]byte {
+	var bs [][]byte
+	for _, f := range strings.Fields(out) {
+		for _, p := range strings.Split(f, ",") {
+			if len(p) >= 2 && len(p)%2 == 0 {
+				if b, err := hex.DecodeString(p); err == nil {
+					bs = append(bs, b)
+				}
+			}
+		}
+	}
+	return bs
+}
+
+// leaks reports whether a result hands out the plaintext or its marker.
+func leaks(out string, m, marker []byte) bool {
+	for _, b := range outBytes(out) {
+		if bytes.Equal(b, m) || bytes.Contains(b, marker) {
+			return true
+		}
+	}
+	return false
+}
+
+func okValue(out string) ([]byte, bool) {
+	if strings.HasPrefix(out, "ok ") {
+		f := strings.Fields(out)
+		if len(f) >= 2 {
+			return core.UnHex(f[1]), true
+		}
+	}
+	return nil, false
+}
+
+var idAlphabet = []byte("abcdefghijklmnopqrstuvwxyzABCDEFGHIJKLMNOPQRSTUVWXYZ0123456789_- ")
+
+// clientID draws an id that passes keystore.ValidateID (5…256 chars of letters, digits, '_', '-', ' ').
+func clientID(rd *core.Rand, n int) []byte {
+	b := make([]byte, n)
+	for i := range b {
+		b[i] = idAlphabet[rd.Intn(len(idAlphabet))]
+	}
+	return b
+}
+
+// plaintext = content of one of the C01 classes followed by a high-entropy marker.
+func plaintext(rd *core.Rand) (m, marker []byte, class string) {
+	l := core.Pick(rd, []int{0, 1, 3, 8, 17, 40, 100, 145, 300})
+	body, class := env.Plain(rd, l)
+	marker = rd.Bytes(markerLen)
+	return append(append([]byte{}, body...), marker...), marker, class
+}
+
+// world is a set of identities with key histories (fake key store).
+func newWorld(rd *core.Rand, ids [][]byte) []*ident {
+	var out []*ident
+	for _, id := range ids {
+		out = append(out, &ident{id: id, kv: env.NewKV(rd, 1+rd.Intn(4), 1+rd.Intn(4)), hmac: rd.Bytes(32)})
+	}
+	return out
+}
+
+// writerView: the value may have been written under ANY key of the owner's history (before rotations).
+func writerView(rd *core.Rand, kv *env.KV) *env.KV {
+	w := *kv
+	w.Pub = env.PubOf(kv.Privs[rd.Intn(len(kv.Privs))])
+	w.Sym = kv.Syms[rd.Intn(len(kv.Syms))]
+	return &w
+}
+
+type target struct {
+	op   string // "C02.as" or "C02.asks <handle>"
+	ids  []*ident
+	what string // tag
+}
+
+func (t target) line(entry string, idx int, kind string, data []byte, hash string) string {
+	return fmt.Sprintf("%s %s %d %s %s %s %s", t.op, entry, idx, kind, core.Hex(data), hash, identTokens(t.ids))
+}
+
+// crossCase: one value of identity a, every reveal-type entry point under identity b.
+func crossCase(r *core.Run, t target, a, b int, kind string) {
+	rd := r.Rand
+	m, marker, class := plaintext(rd)
+	owner := t.ids[a]
+	r.Begin(fmt.Sprintf("%s-%s-%d>%d-%x", t.what, kind, a, b, marker), true, "store:"+t.what, "kind:"+kind, "class:"+class, fmt.Sprintf("pair:%d>%d", a, b))
+	v, ok := env.Protect(r, kind, writerView(rd, owner.kv), m)
+	if !r.Check(ok, "protect-failed", "protect failed on a non-empty plaintext") {
+		return
+	}
+	if bytes.Equal(v, m) {
+		r.Tag("protect:passthrough")
+		return
+	}
+	// the owner can read it (the case is meaningful)
+	own := r.Do(t.line("lib", a, kind, v, "none"))
+	got, ok := okValue(own)
+	r.Check(ok && bytes.Equal(got, m), "owner-cannot-reveal", "the owner does not get its own value back: "+own)
+	// --- under b: library / registry, translator
+	for _, entry := range []string{"lib", "tr.decrypt"} {
+		out := r.Do(t.line(entry, b, kind, v, "none"))
+		r.Check(!leaks(out, m, marker) && !strings.HasPrefix(out, "ok"), "cross-client-reveal",
+			fmt.Sprintf("%s under identity #%d returned %s for a %s value of identity #%d", entry, b, trunc(out), kind, a))
+	}
+	// translator decrypt with the wrong handler kind is an error as well
+	other := map[string]string{"struct": "block", "block": "struct"}[kind]
+	out := r.Do(t.line("tr.decrypt", b, other, v, "none"))
+	r.Check(!leaks(out, m, marker), "cross-client-reveal", "translator decrypt (other handler) leaked under another identity")
+	// --- transparent column path: stored bytes come back unchanged
+	pre, suf := env.Junk(rd, 24), env.Junk(rd, 24)
+	if rd.Chance(30) {
+		pre, suf = nil, nil
+	}
+	col := append(append(append([]byte{}, pre...), v...), suf...)
+	for _, entry := range []string{"col", "colcompat"} {
+		out := r.Do(t.line(entry, b, kind, col, "none"))
+		r.Check(out == core.OkHex(col), "cross-client-column",
+			fmt.Sprintf("%s under identity #%d did not return the stored column unchanged (%s value of #%d at offset %d): %s", entry, b, kind, a, len(pre), trunc(out)))
+	}
+	// … and the same column is opened for the owner (so the path is live)
+	if !bytes.Contains(pre, []byte("%%%")) {
+		out = r.Do(t.line("col", a, kind, col, "none"))
+		r.Check(leaks(out, m, marker), "owner-column", "the owner's column was not decrypted: "+trunc(out))
+	}
+	// bare (old style) envelope: only the compatibility wrapper looks at it
+	if inner, ok := bare(r, v); ok {
+		bcol := append(append([]byte{}, pre...), inner...)
+		if kind == "block" {
+			bcol = append(bcol, suf...)
+		}
+		out := r.Do(t.line("colcompat", b, kind, bcol, "none"))
+		r.Check(out == core.OkHex(bcol), "cross-client-column", "compat wrapper under another identity changed a column holding a bare envelope: "+trunc(out))
+	}
+	// --- blind index
+	if !owner.noHmac {
+		h := r.Do(fmt.Sprintf("C02.hash.gen %s %s", core.Hex(owner.hmac), core.Hex(m)))
+		hash := core.UnHex(h)
+		// sanity: verifies for the owner
+		out = r.Do(t.line("hash.verify", a, kind, m, core.Hex(hash)))
+		r.Check(out == "true", "owner-hash", "the owner's blind index does not verify: "+out)
+		// under b the check fails, also against the right plaintext
+		out = r.Do(t.line("hash.verify", b, kind, m, core.Hex(hash)))
+		r.Check(out == "false", "cross-client-hash", fmt.Sprintf("blind index of identity #%d verified under identity #%d", a, b))
+		// searchable decrypt: hash as separate field, and prepended
+		out = r.Do(t.line("tr.search", b, kind, v, core.Hex(hash)))
+		r.Check(!leaks(out, m, marker) && !strings.HasPrefix(out, "ok"), "cross-client-search", "searchable decrypt under another identity: "+trunc(out))
+		joined := append(append([]byte{}, hash...), v...)
+		out = r.Do(t.line("tr.search", b, kind, joined, "none"))
+		r.Check(!leaks(out, m, marker) && !strings.HasPrefix(out, "ok"), "cross-client-search", "searchable decrypt (hash prepended) under another identity: "+trunc(out))
+		out = r.Do(t.line("tr.search", a, kind, v, core.Hex(hash)))
+		got, ok = okValue(out)
+		r.Check(ok && bytes.Equal(got, m), "owner-search", "searchable decrypt fails for the owner: "+trunc(out))
+		// the searchable value inside a column
+		out = r.Do(t.line("col", b, kind, joined, "none"))
+		r.Check(out == core.OkHex(joined), "cross-client-column", "column with a searchable value changed under another identity")
+	}
+}
+
+func bare(r *core.Run, v []byte) ([]byte, bool) {
+	out := r.Do("C01.container.deser " + core.Hex(v))
+	var h string
+	var id int
+	if _, err := fmt.Sscanf(out, "ok %s %d", &h, &id); err != nil {
+		return nil, false
+	}
+	return core.UnHex(h), true
+}
+
+func trunc(s string) string {
+	if len(s) > 160 {
+		return s[:160] + "…"
+	}
+	return s
+}
+
+func allPairs(n int) [][2]int {
+	var ps [][2]int
+	for a := 0; a < n; a++ {
+		for b := 0; b < n; b++ {
+			if a != b {
+				ps = append(ps, [2]int{a, b})
+			}
+		}
+	}
+	return ps
+}
+
+func fakeWorlds(r *core.Run) {
+	rd := r.Rand
+	for w := 0; w < r.N(18, 700); w++ {
+		ids := [][]byte{clientID(rd, 5+rd.Intn(12)), clientID(rd, 5+rd.Intn(12)), clientID(rd, 5+rd.Intn(40))}
+		if w%5 == 1 { // ids that are prefixes / extensions of one another, incl. the v1 file name suffixes
+			ids[1] = append(append([]byte{}, ids[0]...), []byte("_storage")...)
+			ids[2] = append(append([]byte{}, ids[0]...), []byte("_storage_sym")...)
+		}
+		world := newWorld(rd, ids)
+		switch w % 6 {
+		case 2: // identity 2 has no keys at all
+			world[2].kv = &env.KV{NoPub: true, NoPrivs: true, NoSym: true, NoSyms: true}
+			world[2].noHmac = true
+		case 3: // a symmetric key of identity 1 has the same 2-byte AcraBlock key id as the current key of identity 0
+			k0, k1 := env.CollidingKeys(rd, nil)
+			world[0].kv.Syms = append([][]byte{k0}, world[0].kv.Syms...)
+			world[0].kv.Sym = k0
+			world[1].kv.Syms = append([][]byte{k1}, world[1].kv.Syms...)
+			world[1].kv.Sym = k1
+		case 4: // empty key lists (store answers, but with nothing)
+			world[1].kv.Privs, world[1].kv.Syms = [][]byte{}, [][]byte{}
+		}
+		t := target{op: "C02.as", ids: world, what: "fake"}
+		for _, p := range allPairs(3) {
+			if world[p[0]].kv.NoPrivs || len(world[p[0]].kv.Privs) == 0 {
+				continue // nothing can be protected for an identity without keys
+			}
+			for _, kind := range []string{"struct", "block"} {
+				crossCase(r, t, p[0], p[1], kind)
+			}
+		}
+		// control: an identity that was handed the owner's keys CAN read – the oracle sees a reveal when there is one
+		if w%3 == 0 {
+			m, marker, _ := plaintext(rd)
+			kind := core.Pick(rd, []string{"struct", "block"})
+			r.Begin(fmt.Sprintf("control-shared-%x", marker), true, "control:shared-key", "kind:"+kind)
+			if v, ok := env.Protect(r, kind, world[0].kv, m); ok && !bytes.Equal(v, m) {
+				shared := []*ident{world[0], {id: world[1].id, kv: world[0].kv, hmac: world[0].hmac}, world[2]}
+				out := r.Do(target{op: "C02.as", ids: shared}.line("lib", 1, kind, v, "none"))
+				r.Check(leaks(out, m, marker), "control-shared-key", "control failed: an identity holding the owner's keys could not read the value")
+			}
+		}
+	}
+}
+
+func grpcCases(r *core.Run) {
+	rd := r.Rand
+	ids := [][]byte{TLSClientID(0), TLSClientID(1), TLSClientID(2)}
+	r.Extra["tls_client_ids"] = []string{string(ids[0]), string(ids[1]), string(ids[2])}
+	rpcs := []struct{ rpc, kind string }{{"Decrypt", "struct"}, {"DecryptSym", "block"}, {"DecryptSearchable", "struct"}, {"DecryptSymSearchable", "block"}}
+	for w := 0; w < r.N(5, 150); w++ {
+		world := newWorld(rd, ids)
+		toks := identTokens(world)
+		for _, p := range allPairs(3) {
+			a, b := p[0], p[1]
+			for _, rc := range rpcs {
+				m, marker, class := plaintext(rd)
+				r.Begin(fmt.Sprintf("grpc-%s-%d>%d-%x", rc.rpc, a, b, marker), true, "entry:grpc", "rpc:"+rc.rpc, "class:"+class, fmt.Sprintf("pair:%d>%d", a, b))
+				v, ok := env.Protect(r, rc.kind, writerView(rd, world[a].kv), m)
+				if !ok || bytes.Equal(v, m) {
+					continue
+				}
+				hash := "none"
+				if strings.Contains(rc.rpc, "Searchable") {
+					hash = r.Do(fmt.Sprintf("C02.hash.gen %s %s", core.Hex(world[a].hmac), core.Hex(m)))
+				}
+				// connection of b, request names a (forged), b, a random id, nothing
+				for _, forged := range []string{core.Hex(ids[a]), core.Hex(ids[b]), core.Hex(clientID(rd, 8)), "none"} {
+					out := r.Do(fmt.Sprintf("C02.grpc %s %s %s %s %s %s", rc.rpc, core.Hex(ids[b]), forged, core.Hex(v), hash, toks))
+					r.Check(!leaks(out, m, marker) && !strings.HasPrefix(out, "ok"), "tls-forged-id",
+						fmt.Sprintf("%s over a connection authenticated as #%d with ClientId field %s returned %s for a value of #%d", rc.rpc, b, forged[:min(12, len(forged))], trunc(out), a))
+				}
+				// connection of a, request names b: the owner is served (identity = connection)
+				out := r.Do(fmt.Sprintf("C02.grpc %s %s %s %s %s %s", rc.rpc, core.Hex(ids[a]), core.Hex(ids[b]), core.Hex(v), hash, toks))
+				got, ok := okValue(out)
+				r.Check(ok && bytes.Equal(got, m), "tls-owner", rc.rpc+": the owner's connection was not served when the request named another id: "+trunc(out))
+				// no peer information at all: refused
+				out = r.Do(fmt.Sprintf("C02.grpc %s none %s %s %s %s", rc.rpc, core.Hex(ids[a]), core.Hex(v), hash, toks))
+				r.Check(out == core.Err, "tls-no-peer", rc.rpc+" without a TLS peer was not refused: "+trunc(out))
+				// control: WITHOUT the wrapper the request's id decides – the forged request is served
+				out = r.Do(fmt.Sprintf("C02.grpc.plain %s %s %s %s %s", rc.rpc, core.Hex(ids[a]), core.Hex(v), hash, toks))
+				r.Check(leaks(out, m, marker), "control-plain-grpc", "control failed: the bare gRPC service did not serve a request naming the owner")
+			}
+		}
+	}
+}
+
+// translatorCases: the remaining RPCs through the real TLS wrapper (tokens, encrypt-type, query hash) and the
+// HTTP API over real TLS connections. Implementation only (direct property oracles); values produced here
+// are then pushed through the model-compared `C02.as` ops.
+func translatorCases(r *core.Run) {
+	rd := r.Rand
+	ids := [][]byte{TLSClientID(0), TLSClientID(1), TLSClientID(2)}
+	for w := 0; w < r.N(3, 80); w++ {
+		world := newWorld(rd, ids)
+		h := fmt.Sprintf("tr%d", w)
+		r.Impl("C02.tr.new " + h + " " + identTokens(world))
+		t := target{op: "C02.as", ids: world, what: "translator"}
+		for _, p := range allPairs(3) {
+			a, b := p[0], p[1]
+			A, B := core.Hex(ids[a]), core.Hex(ids[b])
+			// ---- tokens
+			v := append(rd.Bytes(4+rd.Intn(12)), rd.Bytes(markerLen)...)
+			r.Begin(fmt.Sprintf("grpc-token-%d>%d-%x", a, b, v[len(v)-markerLen:]), true, "entry:grpc-token", fmt.Sprintf("pair:%d>%d", a, b))
+			out := r.Impl(fmt.Sprintf("C02.tr.grpc %s Tokenize %s %s %s", h, A, B, core.Hex(v)))
+			tok, ok := okValue(out)
+			if r.Check(ok && !bytes.Equal(tok, v), "tokenize", "Tokenize through the TLS wrapper failed: "+trunc(out)) {
+				out = r.Impl(fmt.Sprintf("C02.tr.grpc %s Detokenize %s %s %s", h, B, A, core.Hex(tok)))
+				got, ok := okValue(out)
+				r.Check(ok && bytes.Equal(got, tok), "tls-forged-id", fmt.Sprintf("Detokenize over connection #%d naming #%d did not return the token unchanged: %s", b, a, trunc(out)))
+				out = r.Impl(fmt.Sprintf("C02.tr.grpc %s Detokenize %s %s %s", h, A, B, core.Hex(tok)))
+				got, ok = okValue(out)
+				r.Check(ok && bytes.Equal(got, v), "tls-owner", "Detokenize over the owner's connection (request naming another id) did not return the value: "+trunc(out))
+				out = r.Impl(fmt.Sprintf("C02.tr.grpc %s Detokenize none %s %s", h, A, core.Hex(tok)))
+				r.Check(out == core.Err, "tls-no-peer", "Detokenize without a TLS peer was not refused")
+			}
+			// ---- encrypt-type RPCs over connection b with a forged id a: the result belongs to b
+			m, marker, _ := plaintext(rd)
+			for _, rc := range []struct{ rpc, kind string }{{"Encrypt", "struct"}, {"EncryptSym", "block"}, {"EncryptSearchable", "struct"}, {"EncryptSymSearchable", "block"}} {
+				r.Begin(fmt.Sprintf("grpc-%s-%d>%d-%x", rc.rpc, a, b, marker), true, "entry:grpc-encrypt", "rpc:"+rc.rpc)
+				f := strings.Fields(r.Impl(fmt.Sprintf("C02.tr.grpc %s %s %s %s %s", h, rc.rpc, B, A, core.Hex(m))))
+				if !r.Check(len(f) >= 2 && f[0] == "ok", "grpc-encrypt", rc.rpc+" through the TLS wrapper failed") {
+					continue
+				}
+				c := core.UnHex(f[len(f)-1])
+				if bytes.Equal(c, m) {
+					continue // the plaintext looked like a protected value and was passed through
+				}
+				out = r.Do(t.line("tr.decrypt", a, rc.kind, c, "none"))
+				r.Check(!leaks(out, m, marker), "tls-forged-id", fmt.Sprintf("%s over connection #%d naming #%d produced a value that #%d can read", rc.rpc, b, a, a))
+				out = r.Do(t.line("tr.decrypt", b, rc.kind, c, "none"))
+				r.Check(leaks(out, m, marker), "tls-owner", rc.rpc+": the connection's own identity cannot read the value it encrypted")
+				if len(f) == 3 { // searchable: the hash is the connection identity's
+					out = r.Do(t.line("hash.verify", b, rc.kind, m, f[1]))
+					r.Check(out == "true", "tls-owner", rc.rpc+": the hash does not verify under the connection's identity")
+					out = r.Do(t.line("hash.verify", a, rc.kind, m, f[1]))
+					r.Check(out == "false", "tls-forged-id", rc.rpc+": the hash verifies under the identity named in the request")
+				}
+			}
+			r.Begin(fmt.Sprintf("grpc-queryhash-%d>%d-%x", a, b, marker), true, "entry:grpc-encrypt", "rpc:GenerateQueryHash")
+			out = r.Impl(fmt.Sprintf("C02.tr.grpc %s GenerateQueryHash %s %s %s", h, B, A, core.Hex(m)))
+			hb := r.Do(fmt.Sprintf("C02.hash.gen %s %s", core.Hex(world[b].hmac), core.Hex(m)))
+			r.Check(out == "ok "+hb, "tls-forged-id", "GenerateQueryHash over connection b naming a did not use b's key")
+			// ---- HTTP API over a TLS connection of b (a "client_id" smuggled into the JSON body is ignored)
+			for _, kind := range []string{"struct", "block"} {
+				m, marker, _ := plaintext(rd)
+				r.Begin(fmt.Sprintf("http-%s-%d>%d-%x", kind, a, b, marker), true, "entry:http", "kind:"+kind)
+				vv, ok := env.Protect(r, kind, writerView(rd, world[a].kv), m)
+				if !ok || bytes.Equal(vv, m) {
+					continue
+				}
+				op := map[string]string{"struct": "decrypt", "block": "decryptSym"}[kind]
+				out = r.Impl(fmt.Sprintf("C02.tr.http %s %s %d %s %s", h, op, b, core.Hex(vv), A))
+				r.Check(!leaks(out, m, marker) && !strings.HasPrefix(out, "200"), "http-cross-client", fmt.Sprintf("HTTP %s over a TLS connection of #%d returned %s for a value of #%d", op, b, trunc(out), a))
+				out = r.Impl(fmt.Sprintf("C02.tr.http %s %s %d %s %s", h, op, a, core.Hex(vv), B))
+				r.Check(out == "200 "+core.Hex(m), "http-owner", "HTTP "+op+" over the owner's TLS connection did not return the plaintext: "+trunc(out))
+			}
+		}
+		r.Impl("C02.tr.close " + h)
+	}
+}
+
+func tokenCases(r *core.Run) {
+	rd := r.Rand
+	const tyBytes = 4 // TokenType_Bytes
+	for w := 0; w < r.N(60, 4000); w++ {
+		ids := [][]byte{clientID(rd, 5+rd.Intn(8)), clientID(rd, 5+rd.Intn(8)), clientID(rd, 5+rd.Intn(8))}
+		n := 1 + rd.Intn(6)
+		type op struct {
+			who     int
+			v, rnd  []byte
+			collide bool
+		}
+		var ops []op
+		l := 4 + rd.Intn(20)
+		for i := 0; i < n; i++ {
+			o := op{who: rd.Intn(3), v: append(rd.Bytes(l), rd.Bytes(markerLen)...)}
+			o.rnd = rd.Bytes(3 * len(o.v))
+			switch {
+			case i > 0 && rd.Chance(25): // the generator draws a token another request already got (same length)
+				prev := ops[rd.Intn(len(ops))]
+				copy(o.rnd, prev.rnd[:len(prev.v)])
+				o.collide = true
+			case i > 0 && rd.Chance(20): // the same value again (consistent tokenization), perhaps by someone else
+				o.v = ops[rd.Intn(len(ops))].v
+				o.rnd = rd.Bytes(3 * len(o.v))
+			}
+			ops = append(ops, o)
+		}
+		var parts []string
+		for _, o := range ops {
+			parts = append(parts, fmt.Sprintf("%s %s %d %s", core.Hex(ids[o.who]), core.Hex(o.v), tyBytes, core.Hex(o.rnd)))
+		}
+		hist := fmt.Sprintf("%d %s", len(ops), strings.Join(parts, " "))
+		// learn the tokens
+		r.Begin(fmt.Sprintf("tok-%d-%x", w, ops[0].v[:4]), true, "entry:tokens", fmt.Sprintf("ops:%d", n))
+		first := r.Do(fmt.Sprintf("C02.tok.run %s %s %d %s", core.Hex(ids[0]), core.Hex(rd.Bytes(l+markerLen)), tyBytes, hist))
+		f := strings.Fields(first)
+		if !r.Check(len(f) >= 2, "tok-run", "token history did not run: "+trunc(first)) {
+			continue
+		}
+		toks := strings.Split(f[0], ",")
+		for i, o := range ops {
+			if i >= len(toks) || toks[i] == "-err-" {
+				continue
+			}
+			tok := core.UnHex(toks[i])
+			for b := 0; b < 3; b++ {
+				out := r.Do(fmt.Sprintf("C02.tok.run %s %s %d %s", core.Hex(ids[b]), core.Hex(tok), tyBytes, hist))
+				ff := strings.Fields(out)
+				res := strings.Join(ff[1:], " ")
+				if b == o.who {
+					got, ok := okValue(res)
+					r.Check(ok && bytes.Equal(got, o.v), "owner-detokenize", "the owner does not get its value back for its token: "+trunc(res))
+					continue
+				}
+				// b never tokenized o.v itself?
+				own := false
+				for _, x := range ops {
+					if x.who == b && bytes.Equal(x.v, o.v) {
+						own = true
+					}
+				}
+				got, ok := okValue(res)
+				if !own {
+					r.Check(ok && !bytes.Equal(got, o.v) && !bytes.Contains(got, o.v[len(o.v)-markerLen:]), "cross-client-detokenize",
+						fmt.Sprintf("de-tokenization under identity #%d returned the value identity #%d tokenized: %s", b, o.who, trunc(res)))
+				}
+				// token back unchanged unless b owns a record for the very same token bytes
+				ownsToken := false
+				for j, x := range ops {
+					if x.who == b && j < len(toks) && toks[j] == toks[i] {
+						ownsToken = true
+					}
+				}
+				if !ownsToken {
+					r.Check(ok && bytes.Equal(got, tok), "cross-client-detokenize", "a foreign token did not come back unchanged: "+trunc(res))
+				}
+			}
+		}
+	}
+}
+
+func realStores(r *core.Run) {
+	rd := r.Rand
+	formats := []struct {
+		format string
+		cache  string
+	}{{"v1", "0"}, {"v1", "1"}, {"v2mem", "0"}, {"v2dir", "0"}}
+	for w := 0; w < r.N(2, 30); w++ {
+		for fi, f := range formats {
+			h := fmt.Sprintf("ks%d_%d", w, fi)
+			master, sig := rd.Bytes(32), rd.Bytes(32)
+			r.Begin(fmt.Sprintf("store-%s-%s-%x", f.format, f.cache, master[:4]), true, "store:"+f.format, "cache:"+f.cache)
+			r.Impl(fmt.Sprintf("C02.ks.new %s %s %s %s %s", f.format, h, core.Hex(master), core.Hex(sig), f.cache))
+			ids := [][]byte{clientID(rd, 5+rd.Intn(10)), clientID(rd, 5+rd.Intn(10)), clientID(rd, 5+rd.Intn(30))}
+			if w%2 == 1 {
+				ids[1] = append(append([]byte{}, ids[0]...), []byte("_storage")...)
+				ids[2] = append(append([]byte{}, ids[0]...), []byte("_storage_sym")...)
+			}
+			// arbitrary interleaved history of generations / rotations
+			var hist []string
+			for i := range ids {
+				for _, what := range []string{"pair", "sym", "hmac"} {
+					for k := 0; k < 1+rd.Intn(3); k++ {
+						if what == "hmac" && k > 0 {
+							break
+						}
+						hist = append(hist, fmt.Sprintf("%s %s", core.Hex(ids[i]), what))
+					}
+				}
+			}
+			for i := len(hist) - 1; i > 0; i-- {
+				j := rd.Intn(i + 1)
+				hist[i], hist[j] = hist[j], hist[i]
+			}
+			// the generation history as (owner, key) entries, newest first – what the model's `keysOf` filters
+			genHist := map[string][]string{}
+			for _, g := range hist {
+				out := r.Impl(fmt.Sprintf("C02.ks.gen %s %s", h, g))
+				r.Check(out == "ok", "keygen", "key generation failed on the real store: "+g)
+				gf := strings.Fields(g)
+				if class := map[string]string{"pair": "private", "sym": "sym"}[gf[1]]; class != "" {
+					// read the new key through a fresh handle: a warm v1 cache keeps serving the previous
+					// symmetric key after a rotation (a C06 matter – same client – reported to its owner)
+					r.Impl("C02.ks.reopen " + h)
+					if k, ok := okValue(r.Impl(fmt.Sprintf("C02.ks.current %s %s %s", h, class, gf[0]))); ok {
+						genHist[class] = append([]string{gf[0] + " " + core.Hex(k)}, genHist[class]...)
+					}
+				}
+			}
+			for _, class := range []string{"private", "sym"} {
+				for _, id := range ids {
+					r.Do(fmt.Sprintf("C02.keys.view %s %s %s %d %s", h, class, core.Hex(id), len(genHist[class]), strings.Join(genHist[class], " ")))
+				}
+			}
+			r.Impl("C02.ks.reopen " + h) // views are read cold; the entry points below then run on the warmed cache
+			var world []*ident
+			for _, id := range ids {
+				v := parseIdents(append([]string{"1"}, strings.Fields(r.Impl(fmt.Sprintf("C02.ks.view %s %s", h, core.Hex(id))))...))[0]
+				world = append(world, v)
+			}
+			distinctKeys(r, world, f.format)
+			t := target{op: "C02.asks " + h, ids: world, what: f.format}
+			for _, p := range allPairs(3) {
+				for _, kind := range []string{"struct", "block"} {
+					crossCase(r, t, p[0], p[1], kind)
+				}
+			}
+			if f.format == "v1" {
+				v1Binding(r, h, master, ids, world)
+			} else {
+				v2Binding(r, h, master, sig, ids, world)
+			}
+			r.Impl("C02.ks.close " + h)
+		}
+	}
+}
+
+// distinctKeys: different clients got different keys (and a client's rotations are all different, too).
+func distinctKeys(r *core.Run, world []*ident, format string) {
+	seen := map[string]int{}
+	add := func(i int, k []byte, what string) {
+		if len(k) == 0 {
+			return
+		}
+		if j, ok := seen[string(k)]; ok && j != i {
+			r.Fail("shared-key", fmt.Sprintf("%s store: identities #%d and #%d hold the same %s key", format, j, i, what))
+		}
+		seen[string(k)] = i
+	}
+	for i, id := range world {
+		for _, k := range id.kv.Privs {
+			add(i, k, "private")
+		}
+		for _, k := range id.kv.Syms {
+			add(i, k, "symmetric")
+		}
+		add(i, id.hmac, "HMAC")
+		add(i, id.kv.Pub, "public")
+		r.Check(!id.kv.NoPrivs && len(id.kv.Privs) > 0 && !id.kv.NoSyms && len(id.kv.Syms) > 0 && !id.noHmac, "keys-missing", "a generated key cannot be read back")
+	}
+}
+
+func currentOf(id *ident, what string) []byte {
+	switch what {
+	case "private":
+		return id.kv.Privs[0]
+	case "sym":
+		return id.kv.Sym
+	}
+	return id.hmac
+}
+
+// v1Binding: the key files of the v1 store are where the model says, open under the model's context for
+// their owner only, and do not load under another identity's name.
+func v1Binding(r *core.Run, h string, master []byte, ids [][]byte, world []*ident) {
+	rd := r.Rand
+	purposes := []string{"private", "sym", "hmac"}
+	name := func(p string, id []byte) string {
+		return r.ModelOnly(fmt.Sprintf("C02.ctx.v1.name %s %s", p, core.Hex(id)))
+	}
+	blobs := map[string][]byte{}
+	for i, id := range ids {
+		for _, p := range purposes {
+			r.Begin(fmt.Sprintf("v1ctx-%s-%d-%x", p, i, master[:4]), true, "entry:v1-context", "purpose:"+p)
+			out := r.Impl(fmt.Sprintf("C02.ks1.read %s %s", h, name(p, id)))
+			blob, ok := okValue(out)
+			if !r.Check(ok, "v1-file-name", fmt.Sprintf("the %s key file of a client is not where the model expects it", p)) {
+				continue
+			}
+			blobs[fmt.Sprintf("%s/%d", p, i)] = blob
+			// opens for its owner under the model's context, giving the key the store hands out
+			out = r.Do(fmt.Sprintf("C02.ctx.v1.open %s %s %s %s", core.Hex(master), p, core.Hex(id), core.Hex(blob)))
+			got, ok := okValue(out)
+			r.Check(ok && bytes.Equal(got, currentOf(world[i], p)), "v1-owner-open", "a v1 key file does not open under its owner's context to the key the store returns")
+			// … for any purpose of the same owner (the purpose is not bound) – documented behaviour, compared with the model only
+			r.Do(fmt.Sprintf("C02.ctx.v1.open %s %s %s %s", core.Hex(master), core.Pick(rd, purposes), core.Hex(id), core.Hex(blob)))
+			// … and for no other identity
+			for j, other := range ids {
+				if j == i {
+					continue
+				}
+				out = r.Do(fmt.Sprintf("C02.ctx.v1.open %s %s %s %s", core.Hex(master), core.Pick(rd, purposes), core.Hex(other), core.Hex(blob)))
+				r.Check(out == core.Err, "stored-key-bound-v1", fmt.Sprintf("the %s key file of identity #%d opens under the key context of identity #%d", p, i, j))
+			}
+		}
+	}
+	// load-as on the real store: copy a's key file to b's name (destroys b's key – done last)
+	for _, pr := range allPairs(3) {
+		a, b := pr[0], pr[1]
+		p, p2 := core.Pick(rd, purposes), core.Pick(rd, purposes)
+		if rd.Chance(60) {
+			p2 = p
+		}
+		blob, ok := blobs[fmt.Sprintf("%s/%d", p, a)]
+		if !ok {
+			continue
+		}
+		r.Begin(fmt.Sprintf("v1loadas-%s>%s-%d>%d-%x", p, p2, a, b, master[:4]), true, "entry:keystore.load-as", "store:v1")
+		out := r.Do(fmt.Sprintf("C02.ks1.loadas %s %s %s %s %s %s %s %s %s", h, p, core.Hex(ids[a]), p2, core.Hex(ids[b]), core.Hex(master), core.Hex(blob), name(p, ids[a]), name(p2, ids[b])))
+		r.Check(out == core.Err, "stored-key-bound-v1", fmt.Sprintf("v1: the %s key of identity #%d, copied to the %s key file name of identity #%d, was loaded: %s", p, a, p2, b, trunc(out)))
+		// control: a key sealed for b at that name does load (so the name is the one the getter reads)
+		key := rd.Bytes(32)
+		if p2 == "private" {
+			key = world[a].kv.Privs[0]
+		}
+		out = r.Impl(fmt.Sprintf("C02.ks1.plant %s %s %s %s %s", h, p2, core.Hex(ids[b]), core.Hex(key), name(p2, ids[b])))
+		got, ok := okValue(out)
+		r.Check(ok && bytes.Equal(got, key), "control-v1-plant", "control failed: a key sealed for the identity at the model's file name is not what its getter returns")
+	}
+}
+
+// v2Binding: ring paths, key contexts and ring signatures of the v2 store.
+func v2Binding(r *core.Run, h string, master, sig []byte, ids [][]byte, world []*ident) {
+	rd := r.Rand
+	rings := []string{"private", "sym", "hmac"}
+	kindOf := map[string]string{"private": "private", "sym": "sym", "hmac": "sym"}
+	path := func(ring string, id []byte) string {
+		return r.ModelOnly(fmt.Sprintf("C02.ctx.v2.path %s %s", ring, core.Hex(id)))
+	}
+	type ringInfo struct{ payload, sig string }
+	infos := map[string]ringInfo{}
+	for i, id := range ids {
+		for _, ring := range rings {
+			r.Begin(fmt.Sprintf("v2ctx-%s-%d-%x", ring, i, master[:4]), true, "entry:v2-context", "ring:"+ring)
+			p := path(ring, id)
+			f := strings.Fields(r.Impl(fmt.Sprintf("C02.ks2.ring %s %s", h, p)))
+			if !r.Check(len(f) >= 4 && f[0] == "ok", "v2-ring-path", fmt.Sprintf("the %s key ring of a client is not where the model expects it", ring)) {
+				continue
+			}
+			infos[fmt.Sprintf("%s/%d", ring, i)] = ringInfo{f[1], f[2]}
+			// the ring signature is the model's HMAC over context(path) ‖ ": " ‖ payload
+			ms := r.ModelOnly(fmt.Sprintf("C02.ks2.sig %s %s %s", core.Hex(sig), p, f[1]))
+			r.Check(ms == f[2], "v2-signature-model", "the ring signature is not HMAC(signature key, context(path) ‖ \": \" ‖ payload) as modelled")
+			n := core.Atoi(f[3])
+			var keys [][]byte
+			switch ring {
+			case "private":
+				keys = world[i].kv.Privs
+			case "sym":
+				keys = world[i].kv.Syms
+			default:
+				keys = [][]byte{world[i].hmac}
+			}
+			for k := 0; k < n; k++ {
+				seq, kind, blob := f[4+3*k], f[5+3*k], f[6+3*k]
+				out := r.Do(fmt.Sprintf("C02.ctx.v2.open %s %s %s %s %s", core.Hex(master), p, kind, seq, blob))
+				got, ok := okValue(out)
+				found := false
+				for _, key := range keys {
+					if bytes.Equal(key, got) {
+						found = true
+					}
+				}
+				r.Check(ok && (found || ring == "hmac"), "v2-owner-open", "a v2 key blob does not open under the model's context to a key the store returns")
+				// other sequence number, other kind, other ring of the same client, other client's ring: all fail
+				alts := []string{
+					fmt.Sprintf("%s %s %d", p, kind, core.Atoi(seq)+1+rd.Intn(3)),
+					fmt.Sprintf("%s %s %s", p, map[string]string{"private": "sym", "sym": "private"}[kind], seq),
+					fmt.Sprintf("%s %s %s", path(core.Pick(rd, rings), ids[(i+1+rd.Intn(2))%3]), kind, seq),
+					fmt.Sprintf("%s %s %s", path(ring, ids[(i+1)%3]), kindOf[ring], seq),
+				}
+				for _, alt := range alts {
+					out = r.Do(fmt.Sprintf("C02.ctx.v2.open %s %s %s", core.Hex(master), alt, blob))
+					r.Check(out == core.Err, "stored-key-bound-v2", "a v2 key blob opened under another (ring path, kind, seqnum)")
+				}
+			}
+		}
+	}
+	for _, pr := range allPairs(3) {
+		a, b := pr[0], pr[1]
+		ring, ring2 := core.Pick(rd, rings), core.Pick(rd, rings)
+		if rd.Chance(60) {
+			ring2 = ring
+		}
+		info, ok := infos[fmt.Sprintf("%s/%d", ring, a)]
+		if !ok {
+			continue
+		}
+		r.Begin(fmt.Sprintf("v2loadas-%s>%s-%d>%d-%x", ring, ring2, a, b, master[:4]), true, "entry:keystore.load-as", "store:v2")
+		out := r.Do(fmt.Sprintf("C02.ks2.loadas %s %s %s %s %s %s %s %s %s %s", h, ring, core.Hex(ids[a]), ring2, core.Hex(ids[b]), core.Hex(sig), info.payload, info.sig, path(ring, ids[a]), path(ring2, ids[b])))
+		r.Check(out == core.Err, "stored-key-bound-v2", fmt.Sprintf("v2: the %s ring of identity #%d, copied to the %s ring path of identity #%d, was loaded: %s", ring, a, ring2, b, trunc(out)))
+	}
+}
+
+func run(r *core.Run) {
+	r.Rule = "3 identities × all ordered pairs × both envelopes × every reveal-type entry point (registry Process, AcraTranslator Decrypt/DecryptSym/DecryptSearchable/DecryptSymSearchable, column detector with/without compat wrapper incl. bare envelopes and junk around, blind-index check, de-tokenization) under the OTHER identity; key histories of 1–4 generations on both sides with the value written under any generation; key stores: fake (by-id map), real v1 directory (with/without cache), real v2 in-memory and directory; ids incl. prefix/suffix-related ones; colliding 2-byte key ids; missing/empty key sets; gRPC through the real TLS wrapper with a real handshake and forged ClientId fields; keystore.load-as by copying key files / rings between identities; non-trivial = a value the owner can read back; distinct by (store, kind, pair, marker)"
+	fakeWorlds(r)
+	grpcCases(r)
+	translatorCases(r)
+	tokenCases(r)
+	realStores(r)
+}
